@@ -55,6 +55,71 @@ class SD:
     __slots__ = ('a',) + _SPECIAL + ('__dict__',)
 
 
+# ---- class layouts x default reduction (spec/Reduce.tla, LayoutShapes): {instance dictionary or not} x {slots or
+# not} x {__setstate__ or not}; P, S, SD above are three of the cells.  For DS, SB, DST the dictionary entries are
+# called p0, p1, ... and the slots are named like those of S.
+_SLOTS = tuple(_aname(i) for i in range(8)) + _SPECIAL
+
+
+class E0:
+    """neither an instance dictionary nor slots: the default state is always None"""
+    __slots__ = ()
+
+
+class DSBase:
+    """(no slots: instances of subclasses keep an instance dictionary)"""
+
+
+class DS(DSBase):
+    """slots declared by a subclass of a class without slots: slots and an instance dictionary"""
+    __slots__ = _SLOTS
+
+
+class SBBase:
+    __slots__ = _SLOTS
+
+
+class SB(SBBase):
+    """subclass without __slots__ of a class with slots: slots and an instance dictionary"""
+
+
+def _t_setstate(self, state):
+    """__setstate__ of E0T, PT, ST, DST: applies the default state the way the default does - (dictionary part, slot
+    part) or a bare dictionary part - and leaves a mark saying which form it was given"""
+    two = isinstance(state, tuple) and len(state) == 2
+    d, s = state if two else (state, {})
+    if not (d is None or isinstance(d, dict)) or not isinstance(s, dict):
+        raise TypeError('state of %s: %r' % (type(self).__name__, type(state)))
+    if d:
+        self.__dict__.update(d)
+    for k, v in s.items():
+        setattr(self, k, v)
+    setattr(self, 'n', 'n2' if two else 'n0')
+
+
+class E0T:
+    """no instance dictionary, no slots, __setstate__ (never called by pickle: the state is always None)"""
+    __slots__ = ()
+    __setstate__ = _t_setstate
+
+
+class PT:
+    """instance dictionary, default __getstate__, own __setstate__"""
+    __setstate__ = _t_setstate
+
+
+class ST:
+    """slots only, default __getstate__ ((None, {slot: value})), own __setstate__"""
+    __slots__ = _SLOTS + ('n',)
+    __setstate__ = _t_setstate
+
+
+class DST:
+    """slots and an instance dictionary ('__dict__' is a slot), default __getstate__, own __setstate__"""
+    __slots__ = _SLOTS + ('n', '__dict__')
+    __setstate__ = _t_setstate
+
+
 class GS:
     """__getstate__ returning a dict, __setstate__ consuming it; __init__ must not run when an instance is rebuilt"""
 
@@ -256,7 +321,7 @@ def func(x=None):
 
 
 SHAPES = ['list', 'dict', 'tuple', 'set', 'P', 'PA', 'S', 'SD', 'GS', 'GT', 'GV', 'GC', 'GL', 'NA', 'NT', 'R2', 'R3', 'RL', 'RD', 'CR',
-          'ML', 'MD', 'MS', 'OD', 'MO', 'XS']
+          'ML', 'MD', 'MS', 'OD', 'MO', 'XS', 'E0', 'DS', 'SB', 'E0T', 'PT', 'ST', 'DST']
 IMMUTABLE = {'tuple', 'NA', 'NT'}          # built from their positional section at creation time
 # representatives per leaf kind (pairwise different over all kinds, so that a digest names its kind); the harness picks
 # one per occurrence (seeded).  i0 / s0 / z are the false leaves.
@@ -269,14 +334,16 @@ LEAVES = {
 SHAPE_OF = {list: 'list', dict: 'dict', tuple: 'tuple', set: 'set', P: 'P', S: 'S', SD: 'SD', GS: 'GS', GT: 'GT', GV: 'GV',
             GC: 'GC', GL: 'GL', PA: 'PA',
             NA: 'NA', NT: 'NT', R2: 'R2', R3: 'R3', RL: 'RL', RD: 'RD', CR: 'CR', ML: 'ML', MD: 'MD', MS: 'MS',
-            collections.OrderedDict: 'OD', MO: 'MO', XInt: 'XS', XStr: 'XS', XFloat: 'XS', XBytes: 'XS', XComplex: 'XS'}
+            collections.OrderedDict: 'OD', MO: 'MO', XInt: 'XS', XStr: 'XS', XFloat: 'XS', XBytes: 'XS', XComplex: 'XS',
+            E0: 'E0', DS: 'DS', SB: 'SB', E0T: 'E0T', PT: 'PT', ST: 'ST', DST: 'DST'}
 
 
 # Inherited twins: an empty subclass of every class of the family, so that each protocol method (__setstate__,
 # __getstate__, __reduce__, __getnewargs__, __setattr__, __slots__, extend, __setitem__) is found on a BASE class of the
 # object's class (h = "inh" in spec/Reduce.tla) instead of on the class itself.
 TWIN = {}
-for _c in (P, PA, S, SD, GS, GT, GV, GC, GL, NA, NT, R2, R3, RL, RD, CR, ML, MD, MS, MO, XInt, XStr, XFloat, XBytes, XComplex):
+for _c in (P, PA, S, SD, GS, GT, GV, GC, GL, NA, NT, R2, R3, RL, RD, CR, ML, MD, MS, MO, XInt, XStr, XFloat, XBytes, XComplex,
+           E0, DS, SB, E0T, PT, ST, DST):
     _t = type(_c.__name__ + '_i', (_c,), {'__module__': __name__, '__doc__': 'inherits everything from ' + _c.__name__})
     globals()[_t.__name__] = _t
     TWIN[_c] = _t
@@ -302,7 +369,7 @@ def build(graph, pick=None):
 
     shells = {'list': list, 'dict': dict, 'set': set, 'P': P, 'S': S, 'SD': SD, 'GS': GS, 'GT': GT, 'GV': GV, 'GC': GC, 'GL': GL, 'PA': PA,
               'R2': R2, 'R3': R3, 'RL': RL, 'RD': RD, 'CR': CR, 'ML': ML, 'MD': MD, 'MS': MS,
-              'OD': collections.OrderedDict, 'MO': MO}
+              'OD': collections.OrderedDict, 'MO': MO, 'E0': E0, 'DS': DS, 'SB': SB, 'E0T': E0T, 'PT': PT, 'ST': ST, 'DST': DST}
     def home(o, c):
         return TWIN[c] if o.get('h') == 'inh' and c in TWIN else c
     for i, o in enumerate(graph):
@@ -360,8 +427,11 @@ def build(graph, pick=None):
             x.__setstate__({'items': pv})
         elif s in ('R2', 'R3', 'CR'):
             x.__init__(*pv)
+        elif s in ('DS', 'SB', 'DST'):            # the dictionary entries; the named section goes to the slots
+            for j, v in enumerate(pv):
+                x.__dict__['p%d' % j] = v
         names = attr_names(o)
-        if s in ('P', 'S', 'SD', 'GS', 'NA', 'R3', 'RL', 'ML', 'MD', 'MS', 'MO', 'XS'):
+        if s in ('P', 'S', 'SD', 'GS', 'NA', 'R3', 'RL', 'ML', 'MD', 'MS', 'MO', 'XS', 'PT', 'ST', 'DS', 'SB', 'DST'):
             for j, v in enumerate(av):
                 object.__setattr__(x, names[j], v)   # SD: the first name is a slot, b, c... go to the instance dictionary
         elif s == 'PA':
@@ -442,7 +512,7 @@ def project(root):
     """object graph -> {"root": kid, "heap": [ {"lab", "alab", "dig", "kids": [kid]} ]}, the heap format of
     spec/H_Reduce.tla: kid = {"c" edge class, "k" name / key, "r" node (0: leaf), "d" leaf digest, "dk" leaf kind,
     "soft"}.  Identity by id(); kids in canonical order: tuple / list items in order, dict values by key
-    (OrderedDict: in order), attributes by name; set members (leaves) go into the node's digest."""
+    (OrderedDict: in order), slot values by name (c = "s"), instance dictionary entries by name (c = "a"); set members (leaves) go into the node's digest."""
     ids, heap, keep = {}, [], []
 
     def kid(c, k, x, soft):
@@ -479,19 +549,17 @@ def project(root):
             if not isinstance(x, collections.OrderedDict):
                 items.sort(key=lambda kv: key(kv[0]))
             kids += [kid('v', key(k), v, t is dict) for k, v in items]
-        attrs = {}
-        slotnames = set(_slots(t))
-        for name in slotnames:
+        # where an attribute lives is observed: each slot through attribute access (the slot descriptor is a data
+        # descriptor: it never falls back to the instance dictionary), each entry of the instance dictionary in vars(x)
+        for name in sorted(set(_slots(t))):
             try:
-                attrs[name] = getattr(x, name)
+                kids.append(kid('s', name, getattr(x, name), False))
             except AttributeError:
                 pass
-        soft = False
         d = getattr(x, '__dict__', None)
         if isinstance(d, dict) and not isinstance(x, (type, types.ModuleType)):
-            attrs.update(d)
             soft = _plain(x)
-        kids += [kid('a', str(k), attrs[k], soft and k not in slotnames) for k in sorted(attrs, key=str)]
+            kids += [kid('a', str(k), d[k], soft) for k in sorted(d, key=str)]
         rec['kids'] = kids
         return me
     return {'root': kid('root', '', root, True), 'heap': heap}
